@@ -3,7 +3,7 @@ CONSTANTS
   Ids = {"p1","p2"}
   CIds = {"p1","p2"}
   ShapeNames = {"S1","S2"}
-  Ops = {"Create","UpdatePlan","UpdatePlanIOFail"}
+  Ops = {"Create","UpdatePlan","UpdatePlanIOFail","DeleteIOFail"}
   Groups = {1}
   InitVers = {0}
   MaxVer = 3
